@@ -94,10 +94,48 @@ def run(ctx: Ctx):
     from sa.inteval import NotEvaluable as _NEv, guarded_value as _gval, int_eval as _iev
     rd_w, pm_w = ReachingDefs(work.node), parent_map(work.node)
     bad_tab = None
+    def _by_interpretation(pmv):
+        """The worker's head interpreted over plain data (sa/pyinterp.py) until both constructors have been called: what each receives for
+        the formal in question - also when `pad_mode` itself is re-bound on the way. None when outside the interpreted fragment."""
+        from sa.pyinterp import Obj as _Obj, PyInterp as _PyI, Raised as _Raised
+        seen_, holder_ = {}, {}
+
+        class _Done(Exception):
+            pass
+
+        def leaf(e, env_):
+            if isinstance(e, ast.Call) and call_name(e) in ("SliceSpectData", "ChunkBySlices"):
+                cn_ = call_name(e)
+                r_ = res.resolve_call(e, work)
+                if not r_:
+                    raise _NEv("constructor not resolved")
+                a_ = bind_args(e, r_[0][-1], r_[1]).arg_for("valid_only" if cn_ == "SliceSpectData" else "mode")
+                seen_.setdefault(cn_, []).append(holder_["it"].eval(a_, env_) if a_ is not None else "<default>")
+                if len(seen_) == 2:
+                    raise _Done()
+                return _Obj()
+            return None
+        it_ = _PyI(leaf=leaf)
+        holder_["it"] = it_
+        args_ = [pmv if p_.name == "pad_mode" else f"<{p_.name}>" for p_ in work.params]
+        try:
+            it_.call_function(work.node, args_, {})
+        except _Done:
+            return seen_
+        except (_NEv, _Raised, KeyError, AttributeError, TypeError, ValueError, IndexError):
+            return None
+        return None
     try:
         for pmv in (None, "reflect", "replicate"):
             env = {"pad_mode": pmv}
+            interp_ = _by_interpretation(pmv)
+            col.count("pad_mode_rows_by_interpretation", int(interp_ is not None))
             for cn, formal, want_v in (("SliceSpectData", "valid_only", pmv is None), ("ChunkBySlices", "mode", "constant" if pmv is None else pmv)):
+                if interp_ is not None:
+                    vals = interp_.get(cn, [])
+                    if (len(vals) != 1 or vals[0] != want_v or type(vals[0]) is not type(want_v)) and bad_tab is None:
+                        bad_tab = dict(pad_mode=pmv, ctor=cn, formal=formal, receives=vals, expected=want_v)
+                    continue
                 reached = []
                 for c in own_calls(work.node):
                     if call_name(c) != cn:
